@@ -55,6 +55,9 @@ func vShortStr(n string) string {
 	return s
 }
 
+// vWithTokenGroups: the step harness also explores stores with token groups configured
+var vWithTokenGroups bool
+
 // vStore builds an arbitrary valid store over the pool together with its reference model.
 func vStore() (*Directory, []*refEntry) {
 	d := &Directory{t: vT{}, logger: hclog.NewNullLogger(), userDN: DefaultUserDN, groupDN: DefaultGroupDN}
@@ -79,6 +82,10 @@ func vStore() (*Directory, []*refEntry) {
 		}
 		d.users = append(d.users, e)
 		ref = append(ref, r)
+	}
+	if vWithTokenGroups && gldap.VBool("haveTokenGroups") {
+		// token groups configured (SetTokenGroups): irrelevant to searches that are not SID searches
+		d.tokenGroups = map[string][]*gldap.Entry{"S-1-1": {&gldap.Entry{DN: vGroupPool[0]}}}
 	}
 	if gldap.VBool("haveGroup") {
 		d.groups = append(d.groups, &gldap.Entry{DN: vGroupPool[0], Attributes: []*gldap.EntryAttribute{gldap.NewEntryAttribute("member", []string{vUserPool[0]})}})
@@ -282,6 +289,7 @@ var vExtraChanges = 0
 
 func H_TD_C20_step() {
 	gldap.VSummarise("encodeInteger")
+	vWithTokenGroups = true
 	d, ref := vStore()
 	ref = vStep(d, ref, "s")
 	for k := range vUserPool {
